@@ -99,6 +99,16 @@ Theorem C14_interval_segment_spec : forall n k (s : series),
 Proof. exact interval_segment_spec. Qed.
 Print Assumptions C14_interval_segment_spec.
 
+(* the transformer on a panel: accepted iff 1 <= k <= n/2 (n = fitted length); every instance
+   is cut into the same k cells, which concatenate back to the instance's series *)
+Theorem C14_interval_segment_panel_spec : forall k pfit p out, iseg_int k pfit p = Ok out ->
+  let n := first_len pfit in
+  (1 <= k <= n / 2)%nat /\
+  Forall2 (fun i o => o = segment (split_bounds n k) (only_col i) /\ length o = k /\
+                      (length (only_col i) = n -> concat o = only_col i)) p out.
+Proof. exact interval_segment_panel_spec. Qed.
+Print Assumptions C14_interval_segment_panel_spec.
+
 (* explicit interval arrays / fitted random intervals: each cell is the half-open slice *)
 Theorem C14_explicit_interval_segment_spec : forall ivs (s : series),
   Forall2 (fun iv o => forall j, (j < snd iv - fst iv)%nat -> (snd iv <= length s)%nat ->
@@ -159,7 +169,27 @@ Theorem C14_impute_rules : forall (l : oseries) t, (t < length l)%nat -> nth t l
 Proof. exact impute_rules. Qed.
 Print Assumptions C14_impute_rules.
 
-(* ... where prev_obs / next_obs are the nearest observations before / after the gap *)
+(* the drift rule: the trend is fitted on the forward/backward-filled copy y of the series (no
+   gaps, same length) and a gap at position t takes the value a + b t of the fitted line ... *)
+Theorem C14_impute_drift_rule : forall (l : oseries) t,
+  (t < length l)%nat -> nth t l None = None -> observed l <> [] ->
+  let y := observed (final_fill l) in
+  map Some y = final_fill l /\ length y = length l /\
+  nth t (impute IDrift l) None = Some (fst (ols_line y) + snd (ols_line y) * Qn t).
+Proof. exact impute_drift_rule. Qed.
+Print Assumptions C14_impute_drift_rule.
+
+(* ... which is the least-squares line over the positions 0..n-1 (normal equations) *)
+Theorem C14_drift_line_is_least_squares : forall (y : series), (2 <= length y)%nat ->
+  let x := map Qn (seq 0 (length y)) in
+  let a := fst (ols_line y) in
+  let b := snd (ols_line y) in
+  qsum (map2 (fun yi xi => yi - a - b * xi) y x) == 0 /\
+  qsum (map2 (fun yi xi => (yi - a - b * xi) * xi) y x) == 0.
+Proof. exact ols_line_is_ols. Qed.
+Print Assumptions C14_drift_line_is_least_squares.
+
+(* prev_obs / next_obs are the nearest observations before / after the gap *)
 Theorem C14_impute_neighbours : forall (l : oseries) t,
   (forall tp vp, prev_obs l t = Some (tp, vp) ->
      (tp < t)%nat /\ nth tp l None = Some vp /\ forall u, (tp < u < t)%nat -> nth u l None = None) /\
@@ -230,5 +260,8 @@ Example C14_nonvacuous :
   sliding_coded 3 [1; 2; 3] = [[1; 1; 2]; [1; 2; 3]; [2; 3; 3]] /\
   impute ILinear [None; Some 1; None; None; Some 4; None] = 
     [Some 1; Some 1; Some (1 + (2 - 1) / (4 - 1) * (4 - 1)); Some (1 + (3 - 1) / (4 - 1) * (4 - 1));
-     Some 4; Some 4].
+     Some 4; Some 4] /\
+  map (option_map Qred) (impute IDrift [Some 0; None; Some 4]) = [Some 0; Some (4 # 3); Some 4] /\
+  (exists out, iseg_int 3 [[map Qn (seq 0 16)]] [[map Qn (seq 0 16)]] = Ok [out] /\
+               map (@length Q) out = [6; 5; 5]%nat).
 Proof. exact nonvacuous_example. Qed.
